@@ -20,15 +20,17 @@ From GV Require Import Prelude.Base.
 Definition uid := N.
 Definition loc := N.
 
-Inductive err := EMaskShape | ENoEntity | ERecursion | EKeyError | ETypeError | EBadParent.
+Inductive err := EMaskShape | ENoEntity | ERecursion | EKeyError | ETypeError | EBadParent | ENotCopied.
 Inductive res (A : Type) := Ok (a : A) | Err (e : err).
 Arguments Ok {A} a.
 Arguments Err {A} e.
 
 Inductive kind := KGroup | KObject | KData.
 (* how an object class treats a mask: GPlain ignores it (NoType, Label, GeoImage, Drillhole ...), GPoints filters
-   vertices, GCells filters vertices and cells, GGrid keeps the geometry and blanks data values *)
-Inductive geo := GPlain | GPoints | GCells | GGrid.
+   vertices, GCells / GCurve filter vertices and cells, GGrid keeps the geometry and blanks data values.
+   GCurve (Curve and its subclasses) additionally caches [parts], from which the cells are REGENERATED once the
+   cells cache has been cleared (clear_cache=True). *)
+Inductive geo := GPlain | GPoints | GCells | GCurve | GGrid.
 Inductive assoc := AVertex | ACell | AObject.
 
 Definition dictv := list (Z * Z).        (* a metadata dictionary: key token -> value token, insertion ordered *)
@@ -43,7 +45,8 @@ Record payload := {
   cells : list (list nat);       (* vertex indices per cell; grids: [ncell] is used instead *)
   ncell : nat;                   (* grid objects: number of cells (centroids) *)
   vals : option (list (option Z));  (* data values; None inside = no-data *)
-  meta : option loc              (* the metadata dict object, if any *)
+  meta : option loc;             (* the metadata dict object, if any *)
+  nocopy : bool                  (* CustomGroup: create_object_or_group finds no class, the copy is None *)
 }.
 
 Record pgroup := { pg_uid : uid; pg_tok : Z; pg_props : list uid }.
@@ -117,15 +120,15 @@ Definition plain_ctx : ctx := {| cmk := CNone; pnv := None; pnc := None; with_ch
 
 Definition set_payload (p : payload) (vs : list Z) (cs : list (list nat)) (vl : option (list (option Z))) : payload :=
   {| cls := cls p; knd := knd p; geok := geok p; asc := asc p; attrs := attrs p; verts := vs; cells := cs;
-     ncell := ncell p; vals := vl; meta := meta p |}.
+     ncell := ncell p; vals := vl; meta := meta p; nocopy := nocopy p |}.
 
 Definition set_meta (p : payload) (m : option loc) : payload :=
   {| cls := cls p; knd := knd p; geok := geok p; asc := asc p; attrs := attrs p; verts := verts p; cells := cells p;
-     ncell := ncell p; vals := vals p; meta := m |}.
+     ncell := ncell p; vals := vals p; meta := m; nocopy := nocopy p |}.
 
 Definition set_attrs (p : payload) (a : list (Z * Z)) : payload :=
   {| cls := cls p; knd := knd p; geok := geok p; asc := asc p; attrs := a; verts := verts p; cells := cells p;
-     ncell := ncell p; vals := vals p; meta := meta p |}.
+     ncell := ncell p; vals := vals p; meta := meta p; nocopy := nocopy p |}.
 
 Fixpoint override1 (k v : Z) (a : list (Z * Z)) : list (Z * Z) :=
   match a with [] => [] | (k', v') :: r => if Z.eqb k k' then (k', v) :: r else (k', v') :: override1 k v r end.
@@ -161,7 +164,7 @@ Definition masked_payload (cx : ctx) (p : payload) : res payload :=
               | _ => if Nat.eqb (length m) (length (verts p)) then Ok (set_payload p (compress m (verts p)) (cells p) (vals p))
                      else Err EMaskShape
               end
-          | GCells =>
+          | GCells | GCurve =>
               match verts p with
               | [] => Ok p
               | _ => if Nat.eqb (length m) (length (verts p))
@@ -185,7 +188,7 @@ Definition child_cmask (cx : ctx) (p : payload) (c : payload) : cmask :=
           match geok p, knd c with
           | GPlain, _ => CNone
           | GPoints, KData => match asc c with AVertex | ACell => CMask m | AObject => CNone end
-          | GCells, KData => match verts p with
+          | (GCells | GCurve), KData => match verts p with
                              | [] => match asc c with AVertex => CMask m | _ => CNone end
                              | _ => match asc c with AVertex => CMask m | ACell => CMask (cell_mask m (cells p)) | AObject => CNone end
                              end
@@ -198,12 +201,12 @@ Definition child_cmask (cx : ctx) (p : payload) (c : payload) : cmask :=
 
 Definition nverts_of (p : payload) : option nat :=
   match knd p, geok p with
-  | KObject, (GPoints | GCells) => match verts p with [] => None | v => Some (length v) end
+  | KObject, (GPoints | GCells | GCurve) => match verts p with [] => None | v => Some (length v) end
   | _, _ => None
   end.
 Definition ncells_of (p : payload) : option nat :=
   match knd p, geok p with
-  | KObject, GCells => match cells p with [] => None | c => Some (length c) end
+  | KObject, (GCells | GCurve) => match cells p with [] => None | c => Some (length c) end
   | KObject, GGrid => Some (ncell p)
   | _, _ => None
   end.
@@ -271,6 +274,7 @@ Definition child_ctx (cx : ctx) (p p' : payload) (c : tree) : ctx :=
 
 (* GridObject.copy copies Data children only *)
 Definition copied_child (p : payload) (c : tree) : bool :=
+  if nocopy (pl (root_node c)) then false else       (* child.copy(...) returned None: silently skipped *)
   match knd p, geok p, knd (pl (root_node c)) with
   | KObject, GGrid, KData => true
   | KObject, GGrid, _ => false
@@ -312,7 +316,48 @@ Fixpoint insert_child (p : uid) (x : tree) (t : tree) : tree :=
   | T n ch => if N.eqb p (nuid n) then T n (ch ++ [x]) else T n (map (insert_child p x) ch)
   end.
 
-Record opts := { o_children : bool; o_mask : option (list bool); o_omit_meta : bool; o_over : list (Z * Z) }.
+Record opts := { o_children : bool; o_mask : option (list bool); o_omit_meta : bool; o_over : list (Z * Z); o_clear : bool }.
+
+(* ---- clear_cache=True on a Curve: copy_to_parent harvested [parts] (the getter caches it), clear_array_attributes
+   then drops the cells cache, and the next read of [cells] rebuilds them from the cached parts (and stores them). *)
+Fixpoint set_nth (i : nat) (v : nat) (l : list nat) : list nat :=
+  match l, i with [], _ => [] | _ :: r, O => v :: r | x :: r, S j => x :: set_nth j v r end.
+
+(* parts = zeros(n); count = 0; for ind in 1..: if cells[ind,0] != cells[ind-1,1]: count += 1; parts[cells[ind,:]] = count *)
+Fixpoint parts_loop (prev : list nat) (cs : list (list nat)) (count : nat) (parts : list nat) : list nat :=
+  match cs with
+  | [] => parts
+  | c :: r =>
+      let count' := if Nat.eqb (nth 0 c 0) (nth 1 prev 0) then count else S count in
+      parts_loop c r count' (set_nth (nth 1 c 0) count' (set_nth (nth 0 c 0) count' parts))
+  end.
+Definition parts_of (n : nat) (cs : list (list nat)) : list nat :=
+  match cs with [] => repeat 0 n | c :: r => parts_loop c r 0 (repeat 0 n) end.
+
+Fixpoint indices_of (pid : nat) (parts : list nat) (i : nat) : list nat :=
+  match parts with [] => [] | x :: r => if Nat.eqb x pid then i :: indices_of pid r (S i) else indices_of pid r (S i) end.
+Fixpoint chain (l : list nat) : list (list nat) :=
+  match l with a :: ((b :: _) as r) => [a; b] :: chain r | _ => [] end.
+(* cells from parts: for every part id in increasing order, consecutive member vertices joined *)
+Definition regen_cells (parts : list nat) : list (list nat) :=
+  flat_map (fun pid => chain (indices_of pid parts 0)) (seq 0 (S (fold_right Nat.max 0 parts))).
+
+Definition clear_payload (p : payload) : payload :=
+  match knd p, geok p, verts p with
+  | KObject, GCurve, (_ :: _) => set_payload p (verts p) (regen_cells (parts_of (length (verts p)) (cells p))) (vals p)
+  | _, _, _ => p
+  end.
+
+(* the entities of the source subtree that went through copy_to_parent(..., clear_cache=True):
+   an object root, or the objects below a group (Group.copy does not clear the group itself) *)
+Fixpoint clear_src (t : tree) : tree :=
+  match t with
+  | T n ch => T {| nuid := nuid n; pl := clear_payload (pl n); npgs := npgs n |}
+                (match knd (pl n) with KGroup => map clear_src ch | _ => ch end)
+  end.
+
+Fixpoint replace_tree (u : uid) (x : tree) (t : tree) : tree :=
+  match t with T n ch => if N.eqb u (nuid n) then x else T n (map (replace_tree u x) ch) end.
 
 Definition top_ctx (o : opts) (tp : payload) : ctx :=
   {| cmk := match o_mask o with Some m => CMask m | None => CNone end;
@@ -324,6 +369,7 @@ Definition copy (w : world) (sws : bool) (u : uid) (tws : bool) (p : uid) (o : o
   match tfind u (ws w sws), tfind p (ws w tws) with
   | Some t, Some tp =>
       if Bool.eqb sws tws && memN p (uids t) then Err ERecursion else
+      if nocopy (pl (root_node t)) then Err ENotCopied else
       match knd (pl (root_node t)), knd (pl (root_node tp)) with
       | KData, (KGroup | KData) => Err EBadParent
       | (KGroup | KObject), KData => Err EBadParent
@@ -331,7 +377,11 @@ Definition copy (w : world) (sws : bool) (u : uid) (tws : bool) (p : uid) (o : o
         let st0 := {| used := uids (ws w tws); usedpg := pguids (ws w tws); nxt := wnext w; rho := [] |} in
         match copy_tree t (top_ctx o (pl (root_node tp))) st0 with
         | Err e => Err e
-        | Ok (t', st') => Ok (set_ws w tws (insert_child p t' (ws w tws)) (nxt st'), root_uid t', rho st')
+        | Ok (t', st') =>
+            let w1 := set_ws w tws (insert_child p t' (ws w tws)) (nxt st') in
+            let w2 := if o_clear o && (o_children o || negb (match knd (pl (root_node t)) with KGroup => true | _ => false end))
+                      then set_ws w1 sws (replace_tree u (clear_src t) (ws w1 sws)) (wnext w1) else w1 in
+            Ok (w2, root_uid t', rho st')
         end
       end
   | _, _ => Err ENoEntity
@@ -496,7 +546,7 @@ Inductive outcome := OErr (e : err) | ODone.
 Definition err_eqb (a b : err) : bool :=
   match a, b with
   | EMaskShape, EMaskShape | ENoEntity, ENoEntity | ERecursion, ERecursion | EKeyError, EKeyError
-  | ETypeError, ETypeError | EBadParent, EBadParent => true
+  | ETypeError, ETypeError | EBadParent, EBadParent | ENotCopied, ENotCopied => true
   | _, _ => false
   end.
 
